@@ -42,7 +42,10 @@ type c05Spec struct {
 	// finish before it begins a pass, so that none of them is a worker of an online
 	// module that waits for the management lock when the next pass takes it.
 	NotifyManages bool `json:"notify_manages,omitempty"`
-	GoMaxProcs    int  `json:"gomaxprocs,omitempty"` // the child runs with GOMAXPROCS=<n>
+	// ReportChan: an error reporting channel is installed (SetErrorReportingChannel) that
+	// nobody reads from
+	ReportChan bool `json:"report_chan,omitempty"`
+	GoMaxProcs int  `json:"gomaxprocs,omitempty"` // the child runs with GOMAXPROCS=<n>
 	// FailStart: modules (module management on) that are not enabled at Start. Afterwards
 	// they are enabled; the first ManageModules pass runs their start routine, which
 	// launches its cycle-1 items and then fails; a second pass starts them successfully.
@@ -82,6 +85,7 @@ type c05Mod struct {
 	StopNil     bool     `json:"stop_nil,omitempty"`
 	StopDelayMs int      `json:"stop_delay_ms"`
 	StopErr     bool     `json:"stop_err,omitempty"`
+	StopPanic   bool     `json:"stop_panic,omitempty"` // the stop routine panics (after its end event)
 	// TriggerOnStopped: the stop routine waits until the named (independent) module is
 	// offline and then triggers that module's p4ev event - while modules that hook it and
 	// are stopped after this one are still online
@@ -105,23 +109,25 @@ const (
 // microtask kinds are "mt_<run|start|sig>_<high|med|low>"
 
 type c05Item struct {
-	ID        string `json:"id"`
-	Kind      string `json:"kind"`
-	Settled   bool   `json:"settled"`         // the driver waits for its begin before it triggers the stop
-	Wait      string `json:"wait"`            // ctx | self | latch
-	Latch     string `json:"latch,omitempty"` // for wait=latch
-	RunMs     int    `json:"run_ms,omitempty"`
-	LingerMs  int    `json:"linger_ms"`
-	FromStart bool   `json:"from_start,omitempty"` // launched from inside the module's start function
-	SrcMod    string `json:"src_mod,omitempty"`
-	DoneCalls int    `json:"done_calls,omitempty"`
-	Restarts  int    `json:"restarts,omitempty"`  // service worker: leading invocations that return an error
-	Cycle     int    `json:"cycle"`               // start cycle of the module that launches the item (1 or 2)
-	Never     bool   `json:"never,omitempty"`     // never returns (stop-timeout path)
-	AtStop    bool   `json:"at_stop,omitempty"`   // submitted by a harness goroutine the moment the module's context was cancelled
-	FromPrep  bool   `json:"from_prep,omitempty"` // launched from inside the module's prep function (gets the module's initial context)
-	ByStorm   bool   `json:"by_storm,omitempty"`  // started by the done storm (see doneStorm)
-	mod       *c05Mod
+	ID         string `json:"id"`
+	Kind       string `json:"kind"`
+	Settled    bool   `json:"settled"`         // the driver waits for its begin before it triggers the stop
+	Wait       string `json:"wait"`            // ctx | self | latch
+	Latch      string `json:"latch,omitempty"` // for wait=latch
+	RunMs      int    `json:"run_ms,omitempty"`
+	LingerMs   int    `json:"linger_ms"`
+	FromStart  bool   `json:"from_start,omitempty"` // launched from inside the module's start function
+	SrcMod     string `json:"src_mod,omitempty"`
+	DoneCalls  int    `json:"done_calls,omitempty"`
+	Restarts   int    `json:"restarts,omitempty"`     // service worker: leading invocations that return an error
+	Cycle      int    `json:"cycle"`                  // start cycle of the module that launches the item (1 or 2)
+	Never      bool   `json:"never,omitempty"`        // never returns (stop-timeout path)
+	AtStop     bool   `json:"at_stop,omitempty"`      // submitted by a harness goroutine the moment the module's context was cancelled
+	FromPrep   bool   `json:"from_prep,omitempty"`    // launched from inside the module's prep function (gets the module's initial context)
+	ByStorm    bool   `json:"by_storm,omitempty"`     // started by the done storm (see doneStorm)
+	PanicAtEnd bool   `json:"panic_at_end,omitempty"` // the function panics right after its end event
+	BackoffMs  int    `json:"backoff_ms,omitempty"`   // service worker: back-off duration handed to StartServiceWorker (default 1 ms)
+	mod        *c05Mod
 }
 
 type c05Out struct {
@@ -287,6 +293,9 @@ func (h *c05H) run() {
 	modules.VerifSetStopTimeout(time.Duration(sp.StopTimeoutMs) * time.Millisecond)
 	modules.SetMaxConcurrentMicroTasks(sp.Limit)
 	modules.SetStdErrReporting(false)
+	if sp.ReportChan {
+		modules.SetErrorReportingChannel(make(chan *modules.ModuleError))
+	}
 
 	for _, ms := range sp.Mods {
 		ms := ms
@@ -523,6 +532,9 @@ func (h *c05H) stopFn(ms *c05Mod) error {
 	}
 	h.log.Rec("end", ms.Name, "stop", map[string]any{"cycle": cyc})
 	h.lat.fire("stopfn.end|" + ms.Name)
+	if ms.StopPanic {
+		panic("harness stop routine panic")
+	}
 	if ms.StopErr {
 		return errors.New("harness stop error")
 	}
@@ -577,6 +589,9 @@ func (h *c05H) body(it *c05Item, inv int, ctx context.Context) {
 	st := m.Status()
 	h.log.Rec("end", who, it.Kind, map[string]any{"status": int(st), "mod": it.mod.Name, "pre": pre})
 	h.lat.fire("item.end|" + it.ID)
+	if it.PanicAtEnd {
+		panic("harness work item panic " + it.ID)
+	}
 }
 
 const mtMaxDelay = 20 * time.Second // never legitimately expires here (limit > number of microtask items)
@@ -631,12 +646,17 @@ func (h *c05H) launch(it *c05Item) {
 		})
 	case kSvc:
 		var inv int
-		m.StartServiceWorker(it.ID, time.Millisecond, func(ctx context.Context) error {
+		backoff := time.Millisecond
+		if it.BackoffMs > 0 {
+			backoff = time.Duration(it.BackoffMs) * time.Millisecond
+		}
+		m.StartServiceWorker(it.ID, backoff, func(ctx context.Context) error {
 			i := inv
 			inv++
 			if i < it.Restarts {
 				h.log.Rec("begin", fmt.Sprintf("%s#pre%d", it.ID, i), "svc_pre", map[string]any{"mod": it.mod.Name})
 				h.log.Rec("end", fmt.Sprintf("%s#pre%d", it.ID, i), "svc_pre", map[string]any{"mod": it.mod.Name, "status": int(m.Status())})
+				h.lat.fire(fmt.Sprintf("item.pre|%s#%d", it.ID, i))
 				if i%2 == 0 {
 					return modules.ErrRestartNow
 				}
